@@ -20,8 +20,9 @@ unrepaired code (`str.replace` of both spellings, one after the other) is kept a
 the `Witness` theorems.
 
 The input list is in topological order (every producer before its consumers; the harness sorts, the
-code uses `networkx.topological_sort`).  Replica counts are already resolved to numbers (the harness
-resolves `%(var)s` by the component > stage > global layering and the correspondence checks it).
+code uses `networkx.topological_sort`).  Replica counts and aggregate flags are already resolved here;
+their resolution from `%(var)s` in the scope chain of each component (component > stage > global) is
+modelled in `St4sd.Model.ReplVars` (`resolveAll`, `expandRaw`).
 -/
 namespace St4sd.Repl
 open St4sd.Str
